@@ -225,6 +225,16 @@ func (f *remoteWrapper) Config() proxyv1alpha1.RateLimitItemConfiguration {
 }
 
 func (f *remoteWrapper) Sync(limitItem proxyv1alpha1.RateLimitItemConfiguration) {
+	// the answer has to describe a limit of the schema's own type: a limiter built from an
+	// item of another type, or from an item without any detail, does not enforce the
+	// configured global limit at all. Such an answer is treated like a missing one.
+	limitItem, ok := f.matchSchemaType(limitItem)
+	if !ok {
+		klog.Errorf("[remote limiter] cluster=%q name=%q ignore limit item that does not match the schema type: %+v",
+			f.flowControlCache.cluster, limitItem.Name, limitItem.LimitItemDetail)
+		return
+	}
+
 	// never trust the limiter server beyond the configured global limit,
 	// neither for the first answer (new flow control) nor for a resize
 	limitItem = f.clampToGlobalLimit(limitItem)
@@ -261,6 +271,20 @@ func (f *remoteWrapper) Sync(limitItem proxyv1alpha1.RateLimitItemConfiguration)
 	default:
 		f.GlobalCounterFlowControl = f.newFlowControl(limitItem, newType)
 	}
+}
+
+// matchSchemaType keeps the detail of the local schema's type only and reports whether
+// the item has it.
+func (f *remoteWrapper) matchSchemaType(limitItem proxyv1alpha1.RateLimitItemConfiguration) (proxyv1alpha1.RateLimitItemConfiguration, bool) {
+	switch flowcontrol.GuessFlowControlSchemaType(f.flowControlCache.local.Config()) {
+	case proxyv1alpha1.MaxRequestsInflight:
+		limitItem.TokenBucket = nil
+		return limitItem, limitItem.MaxRequestsInflight != nil
+	case proxyv1alpha1.TokenBucket:
+		limitItem.MaxRequestsInflight = nil
+		return limitItem, limitItem.TokenBucket != nil
+	}
+	return limitItem, true
 }
 
 // clampToGlobalLimit bounds a server provided limit by the global limit of the local schema:
